@@ -5,8 +5,13 @@
 package c04
 
 import (
+	"crypto/sha256"
+	"encoding/hex"
 	"encoding/json"
 	"fmt"
+	"hash/crc32"
+	"hash/fnv"
+	"strconv"
 	"testing"
 	"time"
 
@@ -165,7 +170,7 @@ func run(c Case) (msg string, nontrivial bool) {
 	for i, op := range steps {
 		events = events[:0]
 		op.ID = c.id(op.ID)
-		sess := fmt.Sprintf("s%d", op.S)
+		sess := sessionName(op.S)
 		key := fmt.Sprintf("%s/%d", sess, op.ID)
 		if (op.Op == "ins" && op.Kind == "pubrec") || (op.Op == "ack" && op.Kind == "pubrel") {
 			// exchanges started by the peer (a stored PUBREC waiting for PUBREL) live in the peer's
@@ -350,9 +355,9 @@ func genOp(t *rapid.T) Op {
 		if rapid.IntRange(0, 2).Draw(t, "rearm") == 0 {
 			rearm = rapid.SampledFrom([]int64{0, 300, 1000, 3000}).Draw(t, "rearmBy")
 		}
-		return Op{Op: "ins", S: rapid.IntRange(0, 2).Draw(t, "s"), ID: id, Kind: kind, D: rapid.SampledFrom(dGrid).Draw(t, "d"), Rearm: rearm}
+		return Op{Op: "ins", S: rapid.SampledFrom([]int{0, 1, 2, 1, 2, 3, 4}).Draw(t, "s"), ID: id, Kind: kind, D: rapid.SampledFrom(dGrid).Draw(t, "d"), Rearm: rearm}
 	case x < 7:
-		return Op{Op: "ack", S: rapid.IntRange(0, 2).Draw(t, "s"), ID: int32(rapid.IntRange(1, 4).Draw(t, "id")),
+		return Op{Op: "ack", S: rapid.SampledFrom([]int{0, 1, 2, 1, 2, 3, 4}).Draw(t, "s"), ID: int32(rapid.IntRange(1, 4).Draw(t, "id")),
 			Kind: rapid.SampledFrom([]string{"puback", "puback", "pubrec", "pubrec", "pubrel", "pubcomp", "conn"}).Draw(t, "kind")}
 	default:
 		return Op{Op: "exp", D: rapid.SampledFrom(nowGrid).Draw(t, "now")}
@@ -421,4 +426,36 @@ func TestEnum(t *testing.T) {
 		rec(nil)
 	}
 	ev.Exhaustive(fmt.Sprintf("ack.Queue (shard %d/%d): all histories of length 1..%d over an alphabet of %d steps (2 ids x {register pub1 at 3 deadlines, register re-arming pub2, ack with 2 types}, 3 sweep times), each followed by a final sweep", si, sn, L, len(al)))
+}
+
+// sessionName: session 0 is "s0"; sessions 1 and 2 are two different identifiers with the same
+// CRC-32 (and sessions 3 and 4, used by a few generated cases, with the same FNV-1a/32): a
+// table keyed by a digest of the session identifier would mix them up.
+var collidingSessions = func() [4]string {
+	var out [4]string
+	// identifiers that look like the broker's own (hexadecimal, pseudo-random): a CRC is linear, and
+	// names that differ in a few decimal digits only never collide under it
+	name := func(i int) string {
+		d := sha256.Sum256([]byte(strconv.Itoa(i)))
+		return hex.EncodeToString(d[:8])
+	}
+	for k, h := range []func([]byte) uint32{crc32.ChecksumIEEE, func(b []byte) uint32 { f := fnv.New32a(); f.Write(b); return f.Sum32() }} {
+		seen := map[uint32]int{}
+		for i := 0; i < 4000000; i++ {
+			d := h([]byte(name(i)))
+			if j, ok := seen[d]; ok {
+				out[2*k], out[2*k+1] = name(j), name(i)
+				break
+			}
+			seen[d] = i
+		}
+	}
+	return out
+}()
+
+func sessionName(i int) string {
+	if i >= 1 && i <= 4 && collidingSessions[i-1] != "" {
+		return collidingSessions[i-1]
+	}
+	return fmt.Sprintf("s%d", i)
 }
